@@ -6,7 +6,7 @@ from gens import *
 BINS = ["hb_block", "hb_stream", "hb_cts"]
 RULE = ("cases = every cloneable type (block modes, buffered CFB, OfbCore, CtrCore x6 and the Ctr/Ofb wrappers, cts variants) x "
         "cipher config; a history h1, a clone (Clone::clone, or Clone::clone_from into a used instance under another key), then histories h2 and h3 applied to original and clone in a random interleaving, "
-        "with a bystander instance under another key used in between; predicate (implementation only): the outputs equal those of "
+        "with a bystander instance under another key used in between; plus cross-key cases: an instance (BelT included) built under key K2 from the state exported by an instance under K1 must equal the oracle for (K2, that IV); predicate (implementation only): the outputs equal those of "
         "two fresh instances replaying h1;h2 and h1;h3 in the same case; non-trivial = non-empty data")
 
 BLOCK_KINDS = ["cbc_enc", "cbc_dec", "pcbc_enc", "pcbc_dec", "ige_enc", "ige_dec", "cfb_enc", "cfb_dec", "cfb8_enc", "cfb8_dec",
@@ -114,6 +114,8 @@ def generate(rng, tier):
         build(c, rng, "new %%s %s%s new %s %s" % (kind, "_core" if core else "", hx(key), hx(iv)), hk, bs, w,
               "new %%s %s%s new %s %s" % (kind, "_core" if core else "", hx(rbytes_n(rng, 8)), hx(rbytes_n(rng, len(iv)))))
         cases.append(c)
+    cross_key(cases, rng, n // 2)
+    cross_key_block(cases, rng, n // 3)
     for i in range(n // 3):
         bs, w, dm = pick_cfg(rng, CTS_CFGS, i // 6)
         kind = CTS_KINDS[i % 6]
@@ -135,6 +137,72 @@ def generate(rng, tier):
         c.expect("clone and original encrypt alike, repeatedly", lambda r, a1=a1, b1=b1, a2=a2: r[a1] == r[b1] == r[a2] and r[a1][0] == "bytes")
         cases.append(c)
     return cases
+
+
+def cross_key(cases, rng, n):
+    """Two instances under DIFFERENT keys where the second one is constructed from bytes the first one
+    produced (its exported IV state): the second must behave as a function of its own key and IV only.
+    All keystream kinds, BelT-CTR included (not Clone, but instances must still be independent); the
+    expected bytes come from the independent oracle."""
+    allk = stream_cfgs_for(lambda k: True)
+    for i in range(n):
+        bs, w, dm, kind = allk[i % len(allk)] if i < len(allk) else rng.choice(allk)
+        k1, k2 = rbytes_n(rng, 8), rbytes_n(rng, 8)
+        iv = boundary_iv(rng, bs, kind)
+        c = Case("c16_x%d" % i, "stream", bs, w, dm, tags=dict(kind=kind + "_crosskey"))
+        c.op("new a %s_core new %s %s" % (kind, hx(k1), hx(iv)))
+        if rng.random() < 0.7:
+            c.op("ksblocks a %d" % rng.randint(0, w + 1))
+        u = c.op("ivstate a")
+        c.op("new b %s_core new %s @%d" % (kind, hx(k2), u))
+        nb = rng.randint(1, 2 * w + 1)
+        o = c.op("ksblocks b %d" % nb)
+        if rng.random() < 0.5:
+            c.op("ivstate a")                      # another export in between
+        c.op("new b2 %s new %s @%d" % (kind, hx(k2), u))
+        msg = rbytes_n(rng, rng.randint(1, 3 * bs))
+        o2 = c.op("apply b2 ip %s" % hx(msg))
+        tc2 = oracle.Toy(k2, dm)
+
+        def ks(ivb, n, kind=kind, tc2=tc2):
+            if kind == "belt":
+                return oracle.belt_ks(tc2, ivb, 0, n)
+            if kind == "ofb":
+                return oracle.ofb_ks(tc2, ivb, n)
+            wbits = int(kind[3:-2])
+            return oracle.ctr_ks(tc2, ivb, wbits, kind[-2:], 0, n)
+        c.expect("an instance built from another instance's exported state under a different key depends on its own key and IV only (core)",
+                 lambda r, u=u, o=o, nb=nb, bs=bs, ks=ks: rbytes(r[o]) == ks(rbytes(r[u]), nb * bs))
+        c.expect("... (byte-level wrapper)",
+                 lambda r, u=u, o2=o2, msg=msg, ks=ks: rbytes(r[o2]) == oracle.xor(msg, ks(rbytes(r[u]), len(msg))))
+        cases.append(c)
+
+
+def cross_key_block(cases, rng, n):
+    """Same idea for the block-mode types (and buffered CFB): B under K2 starts from the IV state A under K1
+    exported; the model has no shared state, so the correspondence decides; the predicate compares B with a
+    twin built the same way after further exports by A."""
+    kinds = [k for k in BLOCK_KINDS if not k.startswith("buf")]
+    for i in range(n):
+        kind = kinds[i % len(kinds)]
+        bs, w, dm = pick_cfg(rng, BLOCK_CFGS, i // len(kinds))
+        mbs = 1 if kind.startswith("cfb8") else bs
+        k1, k2 = rbytes_n(rng, 8), rbytes_n(rng, 8)
+        iv = rbytes_n(rng, bs * (2 if kind.startswith("ige") else 1))
+        c = Case("c16_y%d" % i, "block", bs, w, dm, tags=dict(kind=kind + "_crosskey"))
+        c.op("new a %s new %s %s" % (kind, hx(k1), hx(iv)))
+        c.op("blks a ip %s" % hx(rbytes_n(rng, mbs * rng.randint(0, w + 1))))
+        u = c.op("ivstate a")
+        c.op("new b %s new %s @%d" % (kind, hx(k2), u))
+        data = rbytes_n(rng, mbs * rng.randint(1, 2 * w + 1))
+        o1 = c.op("blks b ip %s" % hx(data))
+        c.op("blks a ip %s" % hx(rbytes_n(rng, mbs)))
+        c.op("ivstate a")
+        c.op("new b2 %s new %s @%d" % (kind, hx(k2), u))
+        o2 = c.op("blks b2 ip %s" % hx(data))
+        c.expect("two instances built alike under K2 from A's exported state agree, whatever A exported in between",
+                 lambda r, o1=o1, o2=o2: r[o1] == r[o2] and r[o1][0] == "bytes")
+        cases.append(c)
 
 
 def matcher(case, desc, known):
